@@ -18,6 +18,7 @@ package registry
 //@   ensures [no-effects] untouched
 
 //@ func (*registry.Registry).Each {C20}
+//@   acquires {C20} registry.Registry.registryLk
 //@   requires process != nil
 //@   invokes process -- called for every entry while registryLk is read-held: what it may acquire is each caller's obligation
 //@   loop 0 invariant [all-entries] true
